@@ -28,7 +28,7 @@ OPS = [  # (model constructor, registry name, arity, yaql spelling)
     ("UNot", "#unary_operator_not", 1, "not"),
 ]
 
-CONFIGS = ["CDefault", "CIterDicts", "CLegacy"]
+CONFIGS = ["CDefault", "CIterDicts", "CLegacy", "CQuota"]
 
 
 def make_config(cfg):
@@ -40,6 +40,8 @@ def make_config(cfg):
     if cfg == "CLegacy":
         from yaql import legacy
         return legacy.create_context(), legacy.YaqlFactory().create()
+    if cfg == "CQuota":
+        return yaql.create_context(), yaql.YaqlFactory().create({"yaql.memoryQuota": 20000, "yaql.limitIterators": 1000})
     raise ValueError(cfg)
 
 
